@@ -35,7 +35,7 @@ def analyse(prop: str, repo_root: str, tier: str):
     except AnalysisError as e:
         # an anchor or idiom the rules need was not found.  If violations were already found they are the report (the same
         # edit usually explains both); otherwise the run cannot give a verdict
-        if not ctx.findings:
+        if not _has_new(ctx):
             raise
         aborted = str(e)
     # instance floors: a rule that examined too few instances would pass vacuously. A floor shortfall is an
@@ -50,9 +50,15 @@ def analyse(prop: str, repo_root: str, tier: str):
     for rule in mod.RULES:
         if ctx.counts.get(rule, 0) == 0:
             ctx.floor_errors.append(f"{prop}-{rule}: no instance examined (rule would pass vacuously)")
-    if ctx.floor_errors and not ctx.findings:
+    if ctx.floor_errors and not _has_new(ctx):
+        # nothing but recorded findings was seen and some rule could not do its work: no verdict for the rest
         raise AnalysisError("; ".join(ctx.floor_errors))
     return ctx, mod
+
+
+def _has_new(ctx) -> bool:
+    known = load_known()["known"]
+    return any(match_known(f, known) is None for f in ctx.findings)
 
 
 def main(argv=None) -> int:
